@@ -233,6 +233,7 @@ NoEvent == Ev("Init", 0, 0, 0, 0, 0, 0)
 EventsOf(op) ==
   CASE op = "Add"      -> {Ev(op, s, 0, v, Q, 0, 0) : s \in Slots, v \in Tokens}
     [] op = "AddW"     -> {Ev(op, s, 0, v, w, 0, 0) : s \in Slots, v \in Tokens, w \in Weights}
+    [] op = "AddN"     -> {Ev(op, s, 0, v, n * Q, n, 0) : s \in Slots, v \in Tokens, n \in {33, 70}}   \* n unit adds in a row
     [] op = "Merge"    -> {Ev(op, s, t, 0, 0, 0, 0) : s \in Slots, t \in Slots}
     [] op = "Copy"     -> {Ev(op, s, t, 0, 0, 0, 0) : s \in Slots, t \in Slots}
     [] op = "Clear"    -> {Ev(op, s, 0, 0, 0, 0, 0) : s \in Slots}
@@ -258,7 +259,7 @@ Enabled(S, e) ==
 
 \* the error class an event must return ("" = success)
 ErrorOf(S, e) ==
-  CASE e.op \in {"Add", "AddW"} -> AddError(e.v, e.w)
+  CASE e.op \in {"Add", "AddW", "AddN"} -> AddError(e.v, e.w)
     [] e.op = "Merge"    -> IF S[e.s].m # S[e.t].m THEN "Mapping" ELSE ""
     [] e.op = "Reweight" -> IF e.num <= 0 THEN "Factor" ELSE ""
     [] OTHER -> ""
@@ -272,7 +273,7 @@ Rebuilt(S, t, s, m) ==
 
 ApplyEvent(S, e) ==
   IF ErrorOf(S, e) # "" THEN S      \* C13: a refused call changes nothing
-  ELSE CASE e.op \in {"Add", "AddW"} -> [S EXCEPT ![e.s] = ApplyAddW(S[e.s], e.v, e.w)]
+  ELSE CASE e.op \in {"Add", "AddW", "AddN"} -> [S EXCEPT ![e.s] = ApplyAddW(S[e.s], e.v, e.w)]
     [] e.op = "Merge"     -> [S EXCEPT ![e.t] = ApplyMergeSk(S[e.t], S[e.s])]
     [] e.op = "Copy"      -> [S EXCEPT ![e.t] = S[e.s]]
     [] e.op = "Clear"     -> [S EXCEPT ![e.s] = FreshSketch(S[e.s])]
